@@ -67,6 +67,43 @@ theorem AttrsW_nilAttr (M : NsMap) (isDt : Str → Bool) (b : Bool) :
   · exact AttrsW_nil M isDt
   · exact AttrsW_one xsiNil _ _ rfl (by intro t ht; cases ht; simp)
 
+/-- the `xsi:type` attribute `next_attribute` adds for an instance of a subclass -/
+def typeAttr (M : NsMap) (xt : Option QN) : List (QN × Str) :=
+  match xt with
+  | some t => if t.isEmpty then [] else [(xsiType, qnameText M t)]
+  | none => []
+def typeEvs (xt : Option QN) : List Ev :=
+  match xt with
+  | some t => if t.isEmpty then [] else [Ev.attr xsiType (.prim (.qname t))]
+  | none => []
+
+theorem AttrsW_typeAttr (M : NsMap) (isDt : Str → Bool) (xt : Option QN) :
+    AttrsW M isDt (typeEvs xt) (typeAttr M xt) := by
+  cases xt with
+  | none => exact AttrsW_nil M isDt
+  | some t =>
+    by_cases ht : t.isEmpty = true
+    · simpa [typeEvs, typeAttr, ht] using AttrsW_nil M isDt
+    · simp only [typeEvs, typeAttr, ht, Bool.false_eq_true, if_false]
+      exact AttrsW_one xsiType _ _ rfl (by intro s hs; cases hs)
+
+theorem typeAttr_keys {M : NsMap} {xt : Option QN} : ∀ kv ∈ typeAttr M xt, kv.1 = xsiType := by
+  intro kv hkv
+  cases xt with
+  | none => cases hkv
+  | some t =>
+    by_cases ht : t.isEmpty = true
+    · simp [typeAttr, ht] at hkv
+    · simp only [typeAttr, ht, Bool.false_eq_true, if_false, List.mem_singleton] at hkv
+      rw [hkv]
+
+theorem nilAttr_keys {b : Bool} : ∀ kv ∈ nilAttr b, kv.1 = xsiNil := by
+  intro kv hkv
+  cases b
+  · cases hkv
+  · simp only [nilAttr, if_true, List.mem_singleton] at hkv
+    rw [hkv]
+
 theorem filter_nilAttr (A : List (QN × Str)) (b : Bool) (h : ∀ kv ∈ A, kv.1 ≠ xsiNil) :
     (A ++ nilAttr b).filter (fun x => !decide (x.1 = xsiNil)) = A := by
   rw [List.filter_append, filter_ne_nil A h]
